@@ -176,6 +176,24 @@ int BookBuildTest::run(int argc, char** argv) {
                     pgn << "[Event \"x\"]\n[Result \"*\"]\n\n";
                     Position p = TextIO::readFEN(TextIO::startPosFEN);
                     int len = 2 + rnd.nextInt(8);
+                    // transpositions reached by paths of different length (two single pawn steps against one double step; the half-move
+                    // clock is part of the book key, so both orders end on a pawn move): a node's depth shrinks when the short path arrives
+                    static const char* unequal[][2] = {
+                        {"e2e3 e7e6 e3e4 e6e5 g1f3 b8c6 f1b5 a7a6", "e2e4 e7e5"}, {"d2d3 d7d6 d3d4 d6d5 c2c4 e7e6 b1c3 g8f6", "d2d4 d7d5"},
+                        {"c2c3 c7c6 c3c4 c6c5 b1c3 b8c6 g2g3 g7g6", "c2c4 c7c5"}, {"e2e3 e7e6 e3e4 e6e5 g1f3 b8c6", "e2e4 e7e5 g1f3"},
+                        {"e2e3 d7d6 e3e4 d6d5 e4d5 d8d5 b1c3 d5a5", "e2e4 d7d5"}};
+                    if (rnd.nextInt(10) < 4) {
+                        int k = rnd.nextInt(5);
+                        std::istringstream ms(unequal[k][rnd.nextInt(3) == 0 ? 1 : 0]);
+                        std::string um;
+                        while (ms >> um) {
+                            Move m = TextIO::uciStringToMove(um);
+                            if (p.isWhiteMove()) pgn << p.getFullMoveCounter() << ". ";
+                            pgn << TextIO::moveToString(p, m, false) << " ";
+                            UndoInfo ui; p.makeMove(m, ui);
+                        }
+                        len = rnd.nextInt(3);
+                    }
                     for (int i = 0; i < len; i++) {
                         MoveList l2; vh::legalMoves(p, l2);
                         if (l2.size == 0) break;
@@ -188,7 +206,7 @@ int BookBuildTest::run(int argc, char** argv) {
                 }
                 book.reset(new BookBuild::Book("", cD, cOwn, cOth));
                 std::cout.rdbuf(sink.rdbuf());
-                book->importPGN(f, pg, 6);
+                book->importPGN(f, pg, 6 + rnd.nextInt(5));
                 std::cout.rdbuf(coutBuf);
                 std::remove(f.c_str()); std::remove(pg.c_str());
                 imports++;
